@@ -245,12 +245,61 @@ func checkC03(c *km.Ctx) {
 		return cap24 || a24, capAge || aAge, nonNeg || aNN
 	}
 	nCalls := 0
+	// the issuing calls: in the handler or - the handler split into stages - in a stage new to the tree that the
+	// handler calls once (the frame of the stage then has the handler's frame at that call as its parent)
+	type issueSite struct {
+		ci    ssa.CallInstruction
+		in    *ssa.Function
+		enter ssa.CallInstruction // the handler's call of the stage (nil when in == h)
+	}
+	var issueSites []issueSite
 	for _, ci := range km.CallsIn(h) {
+		issueSites = append(issueSites, issueSite{ci, h, nil})
+		if g := km.StaticCallee(ci.Common()); g != nil && len(g.Blocks) > 0 && c.InModule(g) && !c.P.IsRecorded(g) && len(c.G.Callers[g]) == 1 {
+			for _, c2 := range km.CallsIn(g) {
+				issueSites = append(issueSites, issueSite{c2, g, ci})
+			}
+		}
+	}
+	for _, is := range issueSites {
+		ci := is.ci
 		callee := km.StaticCallee(ci.Common())
 		if callee == nil || (km.NameOf(callee) != "postAuthSSHCertHandler" && km.NameOf(callee) != "postAuthX509CertHandler") {
 			continue
 		}
 		nCalls++
+		if is.in != h {
+			var dur ssa.Value
+			for _, a := range ci.Common().Args {
+				if km.NamedTypeOf(a.Type()) == "time.Duration" {
+					dur = a
+				}
+			}
+			if dur == nil {
+				r.Add("R-C03-1", km.FuncName(is.in), "duration operand of "+km.NameOf(callee), posOf(c, ci), "a time.Duration operand", "none", false)
+				continue
+			}
+			stIn, stUp := c.F.At(ci), c.F.At(is.enter)
+			viaS := func(kind durKind) bool {
+				if len(stIn) == 0 || len(stUp) == 0 {
+					return false
+				}
+				for _, kin := range stIn {
+					for _, kup := range stUp {
+						fr := &durFrame{fn: is.in, k: s.Augment(kin), call: is.enter, parent: &durFrame{fn: h, k: s.Augment(kup)}}
+						if !durHolds(c, s, fr, dur, kind, 0, map[ssa.Value]bool{}) {
+							return false
+						}
+					}
+				}
+				return true
+			}
+			a, b, z := viaS(durLE24), viaS(durLEAge), viaS(durGE0)
+			r.Add("R-C03-1", km.FuncName(h), "duration <= 24h at "+km.NameOf(callee), posOf(c, ci), "duration <= maxCertificateLifetime (24 h) on every path", sprintf("%v", a), a)
+			r.Add("R-C03-1", km.FuncName(h), "duration <= remaining session age at "+km.NameOf(callee), posOf(c, ci), "duration <= time.Until(authInfo.IssuedAt + 24 h) on every path", sprintf("%v", b), b)
+			r.Add("R-C03-1", km.FuncName(h), "duration >= 0 at "+km.NameOf(callee), posOf(c, ci), "duration >= 0 on every path", sprintf("%v", z), z)
+			continue
+		}
 		// the duration argument: the time.Duration typed one
 		var dur ssa.Value
 		for _, a := range ci.Common().Args {
@@ -769,6 +818,19 @@ func durHolds(c *km.Ctx, s *km.Sem, fr *durFrame, v ssa.Value, kind durKind, dep
 		}
 		return false
 	}
+	// 2b. a field of a request-scoped record that is new to the tree (the handler was split into stages that hand
+	// the record along): field-based - the bound holds for the field when it holds, at the store, for every value
+	// ever stored into it; for ">= 0" also when a test of the field that no store follows says so on the way here
+	if base, fld, isF := km.FieldOfLoad(v); isF {
+		if tn := km.NamedTypeOf(base.Type()); tn != "" && km.IsNewNamedType(tn) {
+			if recordFieldBound(c, s, tn, fld, kind, depth+1) {
+				return true
+			}
+			if kind == durGE0 && recordFieldTestedNonNeg(c, s, fr, base, tn, fld) {
+				return true
+			}
+		}
+	}
 	// 3. min / max
 	if cl, ok := v.(*ssa.Call); ok {
 		if b, isB := cl.Common().Value.(*ssa.Builtin); isB && (b.Name() == "min" || b.Name() == "max") {
@@ -923,6 +985,102 @@ func durHoldsNoParamEscape(c *km.Ctx, s *km.Sem, fr *durFrame, p *ssa.Parameter,
 		}
 		if durHolds(c, s, fr, w, kind, depth+1, map[ssa.Value]bool{ssa.Value(p): true}) {
 			return true
+		}
+	}
+	return false
+}
+
+// recordFieldStores: the stores into field fld of the record type tn anywhere in the module.
+func recordFieldStores(c *km.Ctx, tn, fld string) []*ssa.Store {
+	var out []*ssa.Store
+	for _, fn := range c.P.AllFuncs {
+		if !c.InModule(fn) {
+			continue
+		}
+		km.Instrs(fn, func(in ssa.Instruction) {
+			st, ok := in.(*ssa.Store)
+			if !ok {
+				return
+			}
+			if fa, ok := st.Addr.(*ssa.FieldAddr); ok && km.NamedTypeOf(fa.X.Type()) == tn && fieldNameOf(fa) == fld {
+				out = append(out, st)
+			}
+		})
+	}
+	return out
+}
+
+// recordFieldBound: every value stored into the field satisfies the bound where it is stored.
+func recordFieldBound(c *km.Ctx, s *km.Sem, tn, fld string, kind durKind, depth int) bool {
+	stores := recordFieldStores(c, tn, fld)
+	if len(stores) == 0 || depth > 8 {
+		return false
+	}
+	for _, st := range stores {
+		stt := c.F.At(st)
+		if len(stt) == 0 {
+			continue // unreachable
+		}
+		for _, k := range stt {
+			if !durHolds(c, s, &durFrame{fn: st.Parent(), k: s.Augment(k)}, st.Val, kind, depth+1, map[ssa.Value]bool{}) {
+				return false
+			}
+		}
+	}
+	return true
+}
+
+// recordFieldTestedNonNeg: on the way to this frame the field was tested to be >= 0 and not stored again: in this
+// frame, or - the record being handed in - in the calling frames, directly or inside a stage whose verdict the
+// caller acted on (the facts of that stage's returns, seen through s.Holds).
+func recordFieldTestedNonNeg(c *km.Ctx, s *km.Sem, fr *durFrame, base ssa.Value, tn, fld string) bool {
+	for f, b := fr, km.Unwrap(base); f != nil; f = f.parent {
+		rec := b
+		pr := km.Prim{Name: "record." + fld + " >= 0", Rel: func(ft km.Fact, resolve func(ssa.Value) ssa.Value) bool {
+			var x ssa.Value
+			switch {
+			case (ft.Op == token.GEQ || ft.Op == token.GTR) && ft.Y != nil:
+				if kv, ok := km.ConstInt(ft.Y); ok && ((ft.Op == token.GEQ && kv >= 0) || (ft.Op == token.GTR && kv >= -1)) {
+					x = ft.X
+				}
+			case (ft.Op == token.LEQ || ft.Op == token.LSS) && ft.Y != nil:
+				if kv, ok := km.ConstInt(ft.X); ok && ((ft.Op == token.LEQ && kv >= 0) || (ft.Op == token.LSS && kv >= -1)) {
+					x = ft.Y
+				}
+			}
+			if x == nil {
+				return false
+			}
+			ld, isLoad := km.Unwrap(x).(*ssa.UnOp)
+			b2, f2, ok := km.FieldOfLoad(km.Unwrap(x))
+			if !ok || !isLoad || f2 != fld || km.NamedTypeOf(b2.Type()) != tn || km.CellOrigin(resolve(b2)) != km.CellOrigin(rec) {
+				return false
+			}
+			// no store into the field after the tested load, in the function of the test
+			for _, st := range recordFieldStores(c, tn, fld) {
+				if st.Parent() == ld.Parent() && !km.InstrDominates(st, ld) {
+					return false
+				}
+			}
+			return true
+		}}
+		if s.Holds(f.k, pr) {
+			return true
+		}
+		// up one frame: the record is the argument the caller passed for our parameter
+		p, isP := km.CellOrigin(rec).(*ssa.Parameter)
+		if !isP || f.call == nil || f.parent == nil {
+			return false
+		}
+		args := km.CallArgs(f.call.Common())
+		found := false
+		for i, q := range f.fn.Params {
+			if q == p && i < len(args) && args[i] != nil {
+				b, found = km.Unwrap(args[i]), true
+			}
+		}
+		if !found {
+			return false
 		}
 	}
 	return false
